@@ -383,6 +383,17 @@ func (d *daemon) serve(w http.ResponseWriter, r *http.Request) {
 	d.log = append(d.log, dreq{Method: r.Method, URI: r.RequestURI, Path: r.URL.Path, BodyLen: len(b), BodySHA: hex.EncodeToString(h[:6]), body: b})
 	st, body := d.status, d.body
 	d.mu.Unlock()
+	if strings.HasSuffix(r.URL.Path, abortMidwaySuffix) {
+		// a streamed answer (no Content-Length) that dies after its first half
+		w.Header().Set("X-C12-Daemon", "1")
+		w.Header().Set("Content-Type", "application/octet-stream")
+		w.WriteHeader(st)
+		w.Write(body[:len(body)/2])
+		if f, ok := w.(http.Flusher); ok {
+			f.Flush()
+		}
+		panic(http.ErrAbortHandler)
+	}
 	w.Header().Set("X-C12-Daemon", "1")
 	w.Header().Set("Content-Type", "application/octet-stream")
 	w.WriteHeader(st)
@@ -409,6 +420,10 @@ func (d *daemon) take() ([]dreq, int) {
 // path no enumerated case uses, so that this one-off request is
 // recognisable at the daemon.
 const extractHeadersPath = "/c12/header-extraction"
+
+// abortMidwaySuffix: relayed paths ending so make the daemon abort its answer
+// halfway through the body.
+const abortMidwaySuffix = "/abort-midway"
 
 // ---------------------------------------------------------------- rig
 
